@@ -51,6 +51,13 @@ def run(res, tier, seed, replay):
                 cases.append((f"c{len(cases)}", site, N, k, m, nt))
     if tier == "thorough":
         for _ in range(40): cases.append((f"c{len(cases)}", 8, 64, r.randint(60, 70), r.randint(0, 3), 16))
+    # bursts: every thread is still calling when the budget runs out (one call per thread around the boundary; or many calls per thread with
+    # k well beyond N): an accounting that is not one atomic read-modify-write admits more than N of them
+    for rep in range(6 if tier == "quick" else 60):
+        for site, N in ((1, 1), (2, 2), (3, 3), (7, 7)):
+            cases.append((f"c{len(cases)}", site, N, N + 2, 0, N + 2))
+        for site, N in ((1, 1), (3, 3), (7, 7), (8, 64)):
+            cases.append((f"c{len(cases)}", site, N, r.choice([16, 32, 128] if N < 64 else [128, 160]), 0, 16))
     lines = [f"{c[0]} {c[1]} {c[3]} {c[4]} {c[5]}" for c in cases]
     shards = [lines[i::8] for i in range(8)]
     procs = [subprocess.Popen([exe, "count"], stdin=subprocess.PIPE, stdout=subprocess.PIPE, text=True) for _ in shards]
